@@ -8,17 +8,25 @@ PROP = {
     "engines": [
         # one "case" of the generator = one history run to a clean stop, to the inactivity time-out, and crashed
         # after EVERY store operation / EVERY delivered frame / with a store error at EVERY store operation,
-        # each followed by a restart against the same store (so ~20-60 agent runs per history)
+        # each followed by a restart against the same store (so ~20-60 agent runs per history).
+        # Every fourth history runs on the LATE rig: a harness-implemented `Agent` that registers lanes through
+        # `AgentContext::add_lane` while it is running (-> `TaskMessageResult::AddLane` in `write_task`) and plays the
+        # lane side of the protocol; after the restart the same lanes are registered again and synced.
         {"name": "e2e", "crate": "core", "bin": "sv-c05", "machine": "c05",
-         "cases": {"quick": 1200, "thorough": 16000}, "min_shard": 20, "nontrivial_min_ops": 30},
+         "cases": {"quick": 1600, "thorough": 20000}, "min_shard": 20, "nontrivial_min_ops": 30},
     ],
     "rule": "a generated history (script of attach/link/sync/unlink/command/stall/drop steps from one SplitMix64 "
             "seed) is expanded into one case per end mode: clean stop, inactivity time-out, crash after the n-th "
             "store operation, crash after the n-th delivered frame, store failure at the n-th store operation, for "
-            "every n of the run; every case restarts a fresh agent on the same store and syncs every lane. "
+            "every n of the run; every case restarts a fresh agent on the same store and syncs every lane. Every fourth "
+            "history uses the late rig (value / map lanes, persistent and transient, registered by addlane steps while "
+            "the agent runs; re-registered after the restart at run time or during initialisation). "
             "distinct = distinct script+end mode (sha1 of the op lines), non-trivial = at least 30 log lines",
-    "level_text": "Proof: for every assignment of store ids (which items are persistent) and every sequence of "
-                  "write-task events (lane / store responses with succeeding or failing store calls, link / unlink / "
+    "level_text": "Proof: for every store naming and every sequence of write-task events in which lanes and stores "
+                  "are REGISTERED by events of the history - in the prologue of write_task (initialisation phase) or "
+                  "at any later moment (TaskMessageResult::AddLane: AgentContext::add_lane while the agent runs), the "
+                  "registration fixing the store id of the item's response stream exactly as the code does "
+                  "(laneStoreId) - (further events: lane / store responses with succeeding or failing store calls, link / unlink / "
                   "unknown-lane messages, write completions and failures, lane failure, pruning, stop) of the model "
                   "`persist_response; handle_event` composed with the WHOLE write-task model (links, remote tracker, "
                   "uplink queues with back-pressure): in the merged log every event frame of a persistent lane is "
@@ -26,13 +34,17 @@ PROP = {
                   "point); the store is the fold of the logged operations; a restart (ValueInit/MapInit -> "
                   "value_like_init/map_like_init) yields the last value / exactly the entries implied by the map "
                   "operations, independent of other items; transient items never reach the store and restart at "
-                  "their default; hence at every cut the restored state is the published state or a later one. "
+                  "their default; hence at every cut the restored state is the published state or a later one; a lane "
+                  "registered at run time gets the same store id as one registered during initialisation, keeps it, "
+                  "and is persisted-before-published and never-older across re-registration in the next incarnation. "
                   "Tied to the code end to end: a real agent (value/map lanes, value/map stores, transient lane and "
                   "store) on the real runtime (AgentRouteTask::run_agent_with_store) with a recording "
                   "NodePersistence sharing one sequence counter with the remote-side frame log, run to clean stop, "
                   "inactivity time-out, and crashed after every store operation and every delivered frame, then "
                   "restarted and synced; the Lean model predicts every line (restore after fold) and the Lean "
-                  "monitor decides the property on the log.",
+                  "monitor decides the property on the log. Lanes registered after start-up: the same runtime running a "
+                  "harness-implemented Agent that calls add_lane on scripted steps and speaks the lane protocol "
+                  "(store initialisation, events, syncs) on the returned channels.",
     "level_note": "The order 'persist, then schedule the write' inside one loop iteration of the real write task is "
                   "a fact about the source text that the end-to-end log cannot distinguish from the opposite order "
                   "(a frame is observable only after the write future runs); it is covered by the model theorem and "
@@ -44,6 +56,8 @@ PROP = {
         "lane implementations and Recon (de)serialisation of i32 keys/values (store bytes are treated as opaque, "
         "injectively printed keys), HashMap/BTreeMap (finite maps)",
         "the recording NodePersistence of the harness (an in-memory map; its reads are cross-checked by the model)",
+        "late rig: the harness's own lane implementations (value: last command; map: update/remove/clear) stand in for "
+        "swimos_agent's lanes; what they hold after initialisation and answer to a sync is cross-checked by the model",
     ],
     "assumptions": ["a crash stops every task at once (nothing reaches the store or a remote after the cut)",
                     "the store applies put/update/remove/clear atomically and in call order",
